@@ -179,6 +179,13 @@ fn main() {
             }
             println!("blocks with non-empty inverse scratch: {:?}", v);
         }
+        "c15guard" => {
+            std::process::exit(simd::guard_main());
+        }
+        "c18free" => {
+            let mix: usize = args.get(2).and_then(|s| s.parse().ok()).unwrap_or_else(|| usage());
+            std::process::exit(sched::free_main(mix));
+        }
         "c18ref" => {
             let mix: usize = args.get(2).and_then(|s| s.parse().ok()).unwrap_or_else(|| usage());
             let inst: usize = args.get(3).and_then(|s| s.parse().ok()).unwrap_or_else(|| usage());
